@@ -142,7 +142,7 @@ def run_case(cid, rng, workdir):
         comments = ["; a %s sequence" % kind]
         if rng.random() < 0.3:
             comments.append("; second comment line")
-        text = "\n".join(comments) + "\n" + rng.choice(["title", "my title x", "seq-0", "SEQ1", "strand 2", "chr12"]) + "\n" + "\n".join(lines) + "\n"
+        text = "\n".join(comments) + "\n" + rng.choice(["title", "my title x", "seq-0", "SEQ1", "strand 2", "chr12", "GATA", "CAT", "TATA", "A"]) + "\n" + "\n".join(lines) + "\n"
         p = Path(workdir) / "s.ig"
         if circ:
             edges = edges | {frozenset((1, n))}
